@@ -181,3 +181,19 @@ CHECKS["C13"] = {
     "note": ("CONST/ENUM for concrete schema values and the validator side of REGEX are not decided (runtime data). Only fragments that are source constants are translated; a fragment assembled from non-constant "
              "parts is an analysis error, not a pass."),
 }
+
+CHECKS["C20"] = {
+    "technique": "static analysis: path-sensitive progress analysis of the scanner loop and of every Parser loop (token-type-set abstraction with context-sensitive must-consume summaries), loop-idiom termination rules, regex width and iteration-ambiguity automata, call-graph SCC recursion rule (depth cap / structural descent), interprocedural exception-escape analysis, bounds-guard and per-token-work rules",
+    "text": ("Decides necessary conditions of the no-hang / no-foreign-exception / roughly-linear clauses: every cycle of tokenize's main loop strictly increases pos "
+             "(with the fence-span and %-suffix invariants re-derived from the code); every other while loop has a recognised termination argument; no token "
+             "regex is nullable or iterates ambiguously (exponential backtracking); every cycle of each of the 29 Parser loops consumes a token or exits, "
+             "with advance() counted only where EOF is excluded; every recursion reachable from the reader or a tool is depth-capped with ParserError (parser) "
+             "or descends structurally into a capped document, and the caps fit the interpreter stack; explicit raises and data-dependent library calls "
+             "(int/float/re.compile/json/yaml/index) propagated over the call graph leave the four reader entry points only as LexerError/ParserError and "
+             "leave no tool execute(); META values are type-guarded before str-only operations; every content[i] in the lexer is bounds-guarded on every "
+             "path; the per-token loop does no work proportional to the whole input."),
+    "note": ("Wall-clock scaling is not measured and JSON-serialisability of every envelope value is not decided. IndexError/KeyError/AttributeError/TypeError "
+             "from ordinary subscripts and attribute access are modelled only by R20.5c (META values) and R20.8 (scanner indexes); other implicit exceptions "
+             "inside the tools' unprotected stages are outside the analysis. Polynomial (non-exponential) regex backtracking is not analysed. Four escape origins "
+             "are exempted by name with a reason in octacheck/rules/c20.py (ESCAPE_EXEMPT)."),
+}
